@@ -234,6 +234,25 @@ def solved_model(draw):
             vals[gname] = v
             nodes.append((gnode, v))
         kinds.append("alias_cluster")
+    # alias chain hanging on a constant: h0 is a constant (declared c0, or a literal assignment that
+    # eliminate_constant_assignments turns into one), h1 is tied to h0 and - in a later equation, either way
+    # round - to h2
+    cchain = draw(st.integers(0, 3)) == 0
+    if cchain:
+        for hn in ("h0", "h1", "h2"):
+            vars_.append(D.var(hn))
+        src = draw(st.sampled_from(["literal", "literal", "declared"]))
+        hv = 3.5 if src == "literal" else vals["c0"]
+        vals["h0"] = vals["h1"] = vals["h2"] = hv
+        first = ["eq", ["var", "h0"], lit(hv) if src == "literal" else ["var", "c0"]]
+        if draw(st.booleans()):
+            first = ["eq", first[2], first[1]]
+        link1 = draw(st.sampled_from([["eq", ["var", "h1"], ["var", "h0"]], ["eq", ["var", "h0"], ["var", "h1"]],
+                                      ["eq", ["bin", "-", ["var", "h1"], ["var", "h0"]], ["int", 0]]]))
+        link2 = draw(st.sampled_from([["eq", ["var", "h1"], ["var", "h2"]], ["eq", ["var", "h2"], ["var", "h1"]],
+                                      ["eq", ["bin", "-", ["var", "h1"], ["var", "h2"]], ["int", 0]]]))
+        eqs += [first, link1, link2]
+        kinds.append("constant_alias_chain:" + src)
     # an eliminable DIFFERENTIATED variable defined through an eliminable algebraic one:
     #   xs_elim = k * t_elim;  t_elim = yq + c;  der(xs_elim) = d     (eliminating xs_elim promotes t_elim to a
     # state, eliminating t_elim promotes yq); derivative values of the promoted variables follow from the chain
@@ -305,6 +324,10 @@ def case_strategy(draw):
     c["options"] = draw(option_set(c["family"], c["time"]))
     if c.get("cluster") and draw(st.integers(0, 3)) > 0:
         c["options"]["detect_aliases"] = True
+    if any(k.startswith("constant_alias_chain") for k in c["kinds"]) and draw(st.integers(0, 3)) > 0:
+        c["options"]["detect_aliases"] = True
+        c["options"]["eliminate_constant_assignments"] = draw(st.integers(0, 3)) > 0
+        c["options"]["replace_constant_values"] = draw(st.integers(0, 2)) == 0
     if "eliminable_state_chain" in c["kinds"] and draw(st.integers(0, 3)) > 0:
         c["options"]["eliminable_variable_expression"] = ".*_elim"
         c["options"]["expand_mx"] = True
@@ -513,7 +536,7 @@ def check_case(ctx, case):
 
 
 def shard(ctx):
-    drive(ctx, case_strategy(), check_case, ctx.share(400, 20000))
+    drive(ctx, case_strategy(), check_case, ctx.share(1000, 20000))
 
 
 def replay(ctx, case):
